@@ -88,13 +88,16 @@ class Sched:
         self.max_steps = max_steps
         self.main_sem = threading.Semaphore(0)
         self.aborting = False
-        self.log = []                # (step, current name or '', [(name, how)], chosen name, default name)
+        self.log = []                # (step, current name or '', [(name, how, not started yet?)], chosen name, default name)
         self.keep_log = True
         self.observer = None         # f(thread, point) at every point of a managed thread
         self.timeout_ok = None       # f(thread) -> bool: may this timed wait end by its timeout now?
         self.on_stuck = None         # f() -> bool: called by the controller when nothing can run
         self.driver = None           # f(current, options) -> thread or None: overrides deviations (replay of model behaviours)
         self.bad_deviation = None
+        self.armed = True            # False: ignore deviations / driver (set-up phase of a run)
+        self.on_depart = None        # f(thread): the thread proceeds past the point it was at
+        self.on_wake = None          # f(thread): a blocked thread goes on (lock acquired / wait over)
         self.preemptions = 0
         self.switches = 0
 
@@ -151,7 +154,9 @@ class Sched:
             if default is None:
                 default = opts[0][0]
         chosen = default
-        if self.driver is not None:
+        if not self.armed:
+            pass
+        elif self.driver is not None:
             d = self.driver(cur, opts)
             if d is not None:
                 chosen = d
@@ -166,7 +171,7 @@ class Sched:
                     self.bad_deviation = (self.step, want)
         how = dict((t, h) for t, h in opts)[chosen]
         if self.keep_log:
-            self.log.append((self.step, cur.name if cur else '', [(t.name, h) for t, h in opts], chosen.name, default.name))
+            self.log.append((self.step, cur.name if cur else '', [(t.name, h, t.state == 'new') for t, h in opts], chosen.name, default.name))
         if chosen is not cur:
             self.switches += 1
             if cur is not None:
@@ -204,6 +209,15 @@ class Sched:
             t.state = 'ready'
             self._resume(nxt, how)
             self._sleep(t)
+        if self.on_depart is not None:
+            self.on_depart(t)
+
+    def op(self, *desc):
+        """An explicit pre-emption point of the calling (managed) thread."""
+        t = self.by_ident.get(_thread.get_ident())
+        if t is None:
+            raise RuntimeError('op() from an unmanaged thread')
+        self.point(t, desc)
 
     def block(self, t, what):
         """t cannot proceed until `what`; returns 'ready' or 'timeout'."""
@@ -224,6 +238,8 @@ class Sched:
             self._sleep(t)
         t.state = 'ready'
         t.block = None
+        if self.on_wake is not None:
+            self.on_wake(t)
         return t.woke
 
     def _bootstrap(self, t):
@@ -331,7 +347,7 @@ class VRLock:
             self.owner = 'main'
             self.depth += 1
             return True
-        s.point(t, ('acquire', _caller(), id(self)))
+        s.point(t, ('acquire', _caller(), self))
         while self.owner is not None and self.owner is not t:
             if not blocking:
                 return False
@@ -346,7 +362,7 @@ class VRLock:
         if self.owner is not who:
             raise RuntimeError('cannot release un-acquired lock')
         if t is not None:
-            s.point(t, ('release', _caller(), id(self)))
+            s.point(t, ('release', _caller(), self))
         self.depth -= 1
         if self.depth == 0:
             self.owner = None
@@ -359,7 +375,7 @@ class VRLock:
         if self.owner is not who:
             raise RuntimeError('cannot release un-acquired lock')
         if t is not None:
-            s.point(t, ('release', _caller(), id(self)))
+            s.point(t, ('release', _caller(), self))
         self.depth -= 1
         if self.depth == 0:
             self.owner = None
@@ -382,7 +398,7 @@ class VEvent:
     def is_set(self):
         s, t = _me()
         if t is not None:
-            s.point(t, ('is_set', _caller(), id(self)))
+            s.point(t, ('is_set', _caller(), self))
         return self._flag
 
     isSet = is_set
@@ -390,13 +406,13 @@ class VEvent:
     def set(self):
         s, t = _me()
         if t is not None:
-            s.point(t, ('set', _caller(), id(self)))
+            s.point(t, ('set', _caller(), self))
         self._flag = True
 
     def clear(self):
         s, t = _me()
         if t is not None:
-            s.point(t, ('clear', _caller(), id(self)))
+            s.point(t, ('clear', _caller(), self))
         self._flag = False
 
     def wait(self, timeout=None):
@@ -404,7 +420,8 @@ class VEvent:
         if t is None:
             raise RuntimeError('unmanaged thread waits on a virtual Event')
         timed = timeout is not None and timeout < UNTIMED_S
-        s.point(t, ('wait', _caller(), id(self), 'timed' if timed else 'untimed'))
+        mode = 'zero' if (timeout is not None and timeout <= 0) else ('timed' if timed else 'untimed')
+        s.point(t, ('wait', _caller(), self, mode))
         if self._flag:
             return True
         if timeout is not None and timeout <= 0:
@@ -450,7 +467,7 @@ class VOs:
             return self._os.write(fd, data)
         s, t = _me()
         if t is not None:
-            s.point(t, ('pwrite', _caller(), id(p)))
+            s.point(t, ('pwrite', _caller(), p))
         p.count += len(data)
         return len(data)
 
@@ -460,7 +477,7 @@ class VOs:
             return self._os.read(fd, n)
         s, t = _me()
         if t is not None:
-            s.point(t, ('pread', _caller(), id(p)))
+            s.point(t, ('pread', _caller(), p))
         if p.count == 0:
             raise BlockingIOError(11, 'virtual pipe empty')     # _read_ctrl swallows OSError
         k = min(n, p.count)
@@ -545,7 +562,7 @@ class VSelect:
             if fd not in self.vos.pipes:
                 raise RuntimeError('virtual %s on a real descriptor %r' % (kind, fd))
         w = _Readable([self.vos.pipes[fd] for fd in fds])
-        s.point(t, ('select', _caller(3), kind, 'zero' if zero else ('timed' if timed else 'untimed')))
+        s.point(t, ('select', _caller(3), kind, 'zero' if zero else ('timed' if timed else 'untimed'), w))
         if not w.ready() and not zero:
             s.block(t, ('wait', w, timed))
         return [fd for fd in fds if self.vos.pipes[fd].count > 0]
@@ -595,6 +612,12 @@ class Monitor:
     def __init__(self):
         self.codes = {}          # code -> qualname
         self.tool = None
+        self.keep = None         # None: every line is a point; else {code: set(line numbers)}
+
+    def set_filter(self, keep):
+        """keep: None (all lines) or {code: set of line numbers that are pre-emption points}."""
+        self.keep = keep
+        sys.monitoring.restart_events()
 
     def add(self, func):
         code = func.__code__
@@ -628,6 +651,8 @@ class Monitor:
         s = _ACTIVE
         if s is None:
             return None
+        if self.keep is not None and line not in self.keep.get(code, ()):
+            return sys.monitoring.DISABLE
         t = s.by_ident.get(_thread.get_ident())
         if t is None:
             return None
